@@ -12,16 +12,25 @@ def cases(draw, procs=False):
     spec = draw(gen.worlds(max_layers=4, min_layers=1 if procs else 0, hooks='layer', faults=faults,
                            nie=35 if procs else 0, kinds=gen.ALL_KINDS, max_modules=2, depth=1, max_tests=4,
                            weights_good=35, layer_decl=80, explicit_unit=True, max_children=3,
-                           excs=gen.ALL_EXCS, fault_excs=gen.ALL_EXCS[:12]))
+                           excs=gen.ALL_EXCS + gen.ODD_EXCS, fault_excs=gen.ALL_EXCS[:12] + gen.ODD_EXCS))
     for L in spec['layers']:
         if draw(st.integers(0, 99)) < 60:
             L['hooks'] = sorted(set(L['hooks']) | {'setUp', 'tearDown'}, key=gen.HOOKS.index)
     gen.add_outputs(draw, spec, prob=35)
     opts = {'buffer': draw(st.booleans()), 'verbose': draw(st.integers(0, 3)),
             'repeat': draw(st.sampled_from([1, 1, 1, 2]))}
+    # reporting options: a failure is reported through a different code path with each of them
+    extra = draw(st.lists(st.sampled_from(FORMAT_FLAGS), max_size=2, unique=True)) \
+        if draw(st.integers(0, 2)) == 0 else []
+    # (giving two of --ndiff/--udiff/--cdiff is rejected at start-up, as documented: keep the first only)
+    diffs = [f for f in extra if f in ('--ndiff', '--udiff', '--cdiff')]
+    opts['extra'] = [f for f in extra if f not in diffs[1:]]
     if procs:
         opts['j'] = draw(st.sampled_from([None, 2]))
     return {'spec': spec, 'opts': opts}
+
+
+FORMAT_FLAGS = ('-c', '-p', '-1', '--auto-progress', '--slow-test=0', '--ndiff', '--udiff', '--cdiff', '-C')
 
 
 def oracle(spec, opts, run):
@@ -39,7 +48,7 @@ def oracle(spec, opts, run):
     started = {}
     for pid, tid in common.test_starts(run.trace):
         started[tid] = started.get(tid, 0) + 1
-    p = parse.parse(run.out)
+    p = parse.parse(run.out, progress='-p' in (opts.get('extra') or ()))
     ran_by_layer = {}
     for b in p.blocks:
         ran_by_layer.setdefault(b.layer, []).extend(b.ran)
@@ -74,6 +83,12 @@ def oracle(spec, opts, run):
         labels.append('layer-faults')
     if opts.get('buffer'):
         labels.append('buffer')
+    for f in opts.get('extra') or ():
+        labels.append('flag:' + f)
+    if any(t.get('exc') in gen.ODD_EXCS for _, t in gen.iter_tests(spec)):
+        labels.append('odd-exception-in-test')
+    if any(x in gen.ODD_EXCS for L in spec['layers'] for x in (L.get('faults') or {}).values()):
+        labels.append('odd-exception-in-layer')
     labels.append('v%d' % opts.get('verbose', 0))
     multi = any(model.n_events(t) >= 2 for _, t in gen.iter_tests(spec))
     if multi:
